@@ -7,7 +7,7 @@ namespace Nstd.Server.C14
 open Nstd.Server.C13 (Outcome SendRes sendOS)
 
 /-- `interrupted ⇒ event descriptor signalled` -/
-def InvI (s : St) : Prop := s.interrupted = true → 0 < s.eventfd
+def InvI (s : St) : Prop := s.interrupted = true → 0 < s.eventfd + s.pendingEfd
 
 theorem move_gone_invI (s : St) (m : Move) :
     (∀ i, s.gone i = true → (move s m).gone i = true) ∧ (InvI s → InvI (move s m)) ∧
@@ -38,6 +38,15 @@ theorem move_gone_invI (s : St) (m : Move) :
     split
     · exact ⟨fun _ h => h, fun h => h, fun h => Or.inl h⟩
     · exact ⟨fun _ h => h, fun h => h, fun h => Or.inl h⟩
+  case intrBegin =>
+    split
+    · exact ⟨fun _ h => h, fun h => h, fun h => Or.inl h⟩
+    · exact ⟨fun _ h => h, fun _ _ => by show 0 < s.eventfd + (s.pendingEfd + 1); omega, fun _ => Or.inl rfl⟩
+  case intrEnd =>
+    split
+    · exact ⟨fun _ h => h, fun h => h, fun h => Or.inl h⟩
+    · rename_i hp
+      exact ⟨fun _ h => h, fun hi h => by have := hi h; show 0 < s.eventfd + 1 + (s.pendingEfd - 1); omega, fun h => Or.inl h⟩
   case step inp o =>
     obtain ⟨a, b, _, d, _⟩ := step_rel s inp o
     exact ⟨a, b, d⟩
